@@ -3,8 +3,8 @@
 package handshake
 
 import (
-	"sync"
 	"net"
+	"sync"
 	"time"
 )
 
